@@ -13,7 +13,7 @@ from . import c01
 from .indexfx import index_effects
 
 PROP = "C17"
-FLOORS = {"C17.R1": 6, "C17.R2": 1, "C17.R3": 4, "C17.R4": 6}
+FLOORS = {"C17.R1": 6, "C17.R2": 1, "C17.R3": 4, "C17.R4": 6, "C17.R5": 2, "C17.R6": 1}
 META = {
     "explanation": "Every effect of a Manager method on the definitions (tasks) or a reverse index -- found on symbolic terms after "
                    "helper inlining, so aliases and helper methods are seen through, or reached by calling another Manager method "
@@ -263,8 +263,89 @@ def _values_still_propagate(col, rule="C17.R4"):
             col.obs.append(o)
 
 
+def _refusal(col, rule="C17.R5"):
+    """the frozen branch ends in `raise ValueError(<message>)` whose message cannot itself fail: `'... %s' % x` raises TypeError when x is
+    a tuple (task identifiers may be tuples), and a call made to build the message may raise anything"""
+    import ast as _ast
+    repo = col.repo
+    n = 0
+    for name in _manager_methods(repo):
+        if name.startswith("_") and not name.startswith("__"):
+            continue        # private helper: judged where it is inlined
+        sx = sctx(repo, "Manager", name, public=True, keep={m for m in _manager_methods(repo) if not m.startswith("_") or m.startswith("__")})
+        cfg = sx.cfg
+        for b in sx.branches(FROZEN):
+            region = {x for x in cfg.reachable(b) | {b}}
+            if cfg.EXIT in region:
+                continue
+            for nid in sorted(region):
+                nd = cfg.nodes[nid]
+                st = nd.ast
+                if nd.kind != "stmt" or not isinstance(st, _ast.Raise) or st.exc is None:
+                    continue
+                n += 1
+                exc = st.exc
+                cname = A.dotted(exc.func) if isinstance(exc, _ast.Call) else A.dotted(exc)
+                if cname is None:
+                    raise AnalysisError(f"Manager.{name}: the exception raised in the frozen branch is not a plain class call (cannot decide)")
+                col.add(rule, f"Manager.{name}#refuses-with-ValueError", cname == "ValueError", sx.loc(nid),
+                        "a call refused because the tree is frozen raises ValueError", f"raises {cname}")
+                hazards = []
+                for x in _ast.walk(exc):
+                    if isinstance(x, _ast.BinOp) and isinstance(x.op, _ast.Mod) and \
+                            (isinstance(x.left, _ast.Constant) and isinstance(x.left.value, str) or isinstance(x.left, _ast.JoinedStr)) \
+                            and not isinstance(x.right, (_ast.Tuple, _ast.Dict, _ast.Constant)):
+                        hazards.append(f"`% {_ast.unparse(x.right)}`: TypeError if the operand is a tuple")
+                col.add(rule, f"Manager.{name}#refusal-message-cannot-fail", not hazards, sx.loc(nid),
+                        "building the message of the refusal cannot raise another exception in its place", "; ".join(hazards))
+    col.count("frozen_refusals", n)
+
+
+EVALUATING = ("_get_value", "_set_value", "run", "_run_tasks", "_eval")
+
+
+def _construction_is_inert(col, rule="C17.R6"):
+    """set_value / load / copy_expr_from build the ExprTask *before* register() refuses: building it must not evaluate anything (a read of a
+    container that creates entries on access -- a defaultdict -- already changes the data of a call that is then refused)"""
+    repo = col.repo
+    run = sctx(repo, "ExprTask", "run", public=True)
+    if not [ev for ev in run.of_kind("call") if ev.term[:1] == ("call",) and ev.term[1][:1] == ("attr",) and ev.term[1][2] in EVALUATING]:
+        raise AnalysisError("positive control: the evaluation calls of ExprTask.run are not recognised (cannot decide)")
+    def is_task(cn, depth=4):
+        c = repo.classes.get(cn)
+        return c is not None and (cn == "Task" or (depth > 0 and any(is_task(b, depth - 1) for b in c.base_names)))
+    built = set()
+    for name in _manager_methods(repo):
+        sx = sctx(repo, "Manager", name, public=True, keep=set(_manager_methods(repo)))
+        for ev in sx.of_kind("call"):
+            t = ev.term
+            if t[:1] == ("call",) and t[1][:1] == ("glob",) and is_task(t[1][1]):
+                if not frozen_guarded(sx, ev.nid):
+                    built.add(t[1][1])
+    if "ExprTask" not in built:
+        raise AnalysisError("Manager: no ExprTask construction ahead of the frozen guard found -- the rule has nothing to judge (cannot decide)")
+    for cn in sorted(built):
+        c = repo.classes[cn]
+        init = repo.lookup(c, "__init__")
+        if init is None or not init[0].module.name.startswith("xdeps"):
+            continue
+        ix = sctx(repo, init[0].name, "__init__", public=True)
+        ev_calls = [ev for ev in ix.of_kind("call") if ev.term[:1] == ("call",) and ev.term[1][:1] == ("attr",) and ev.term[1][2] in EVALUATING]
+        col.add(rule, f"{cn}.__init__#evaluates-nothing", not ev_calls, ix.loc(ev_calls[0]) if ev_calls else ix.loc(ix.fn),
+                f"constructing a {cn} (done ahead of the frozen-tree refusal) reads no values and runs nothing",
+                "; ".join(S.show(e.term)[:60] for e in ev_calls[:2]))
+
+
 def check(col: Collector):
-    _guard_dominance(col)
-    _refuse_before_write(col)
-    _who_may_write(col)
-    _values_still_propagate(col)
+    with col.rule():
+        _refusal(col)
+    with col.rule():
+        _construction_is_inert(col)
+    with col.rule():
+        _guard_dominance(col)
+    with col.rule():
+        _refuse_before_write(col)
+    with col.rule():
+        _who_may_write(col)
+    with col.rule():
+        _values_still_propagate(col)
